@@ -267,7 +267,8 @@ func genRace(g *hx.Gen, out *hx.Out) {
 	// two-operation rounds: every pair whose orders differ observably, both modes
 	pairs := [][]string{{"addhard", "removeall", "0"}, {"addhard", "removekey", "0"}, {"addhard", "uremovekey", "0"}, {"addhard", "lock", "0"},
 		{"removecert", "list", "1"}, {"removeall", "sign", "1"}, {"lock", "list", "1"}, {"lock", "removeall", "1"}, {"addkey", "removeall", "0"},
-		{"addhard", "addhard", "0"}, {"lock", "lock", "0"}, {"removecert", "removeall", "1"}, {"unlock", "addhard", "0"}}
+		{"addhard", "addhard", "0"}, {"lock", "lock", "0"}, {"removecert", "removeall", "1"}, {"unlock", "addhard", "0"},
+		{"fwd512", "list", "1"}, {"fwd4096", "sign", "1"}, {"fwd511", "fwd512", "0"}}
 	rounds := 60
 	if *hx.Count >= 1000 {
 		rounds = 600
@@ -370,10 +371,24 @@ var linOps = map[string]linOp{
 		}
 		return fmt.Sprintf("n%d", len(keys))
 	}},
+	// raw requests whose size sits on or next to a power of two (the upstream agent answers an
+	// unknown code with a failure byte)
+	"fwd511": {"fwd511", func(w *linWorld) string { return fwdN(w, 511) }},
+	"fwd512": {"fwd512", func(w *linWorld) string { return fwdN(w, 512) }},
+	"fwd4096": {"fwd4096", func(w *linWorld) string { return fwdN(w, 4096) }},
 	"sign": {"sign", func(w *linWorld) string {
 		_, err := w.y.Sign(w.cert, []byte("data"))
 		return errS(err)
 	}},
+}
+
+func fwdN(w *linWorld, n int) string {
+	req := append([]byte{200}, bytes.Repeat([]byte{0x5A}, n-1)...)
+	resp, err := w.y.Forward(req)
+	if err != nil {
+		return "e"
+	}
+	return fmt.Sprintf("n%d", len(resp))
 }
 
 // lin spec: "lin,<opA>,<opB>,<rounds>,<noup 0/1>,<prehard 0/1>"
@@ -450,7 +465,7 @@ func completes(spec string) string {
 	now := uint64(time.Now().Unix())
 	cert := &ssh.Certificate{Key: ks.PublicKey(), Serial: 9, CertType: ssh.UserCert, KeyId: "x", ValidAfter: now - 2000, ValidBefore: now + 100000}
 	cert.SignCert(rand.Reader, caS)
-	names := []string{"addhard", "lock", "unlock", "list", "removeall", "sign", "removecert", "addkey"}
+	names := []string{"addhard", "lock", "unlock", "list", "removeall", "sign", "removecert", "addkey", "fwd511", "fwd512"}
 	var seq []string
 	var walk func(w *linWorld, depth int) string
 	run := func(w *linWorld, name string) bool {
